@@ -45,6 +45,8 @@ def run(chk, repo, tier):
     dd = wf.methods.get('as_dask_dict')
     if dd is None:
         raise AnalysisError('Workflow.as_dask_dict not found')
+    dd = repo.follow_delegation(dd)      # the method may hand over to a function of another module
+    rel = dd.module.rel if dd.module is not wm else rel
 
     # ------------------------------------------------------------------ W1
     # (a) value layout: the content of the stored tuple, however it is assembled (sa/seqs.py)
@@ -72,7 +74,7 @@ def run(chk, repo, tier):
         chk.instance(W1, f'value layout {unparse(v)} = {seq}')
         # the loop variable over the tasks: `task` in every accepted form (for task in ...)
         ok = len(seq) == 3 and seq[0] == ('elem', 'task.function') and seq[1] == ('star', 'task.task_input') \
-            and seq[2][0] == 'map' and seq[2][2] in PREDS and not seq[2][3]
+            and seq[2][0] == 'map' and (seq[2][2] in PREDS or seq[2][2].endswith(('._g.predecessors(task)', '.get_predecessors(task)'))) and not seq[2][3]
         kd = None
         if ok:
             try:
@@ -382,8 +384,15 @@ def run(chk, repo, tier):
             and n.targets[0].id == 'output_tasks']
     chk.instance(W4, f'insert_workflow: output_tasks = {[unparse(n.value) for n in outs]}; zip {[unparse(z) for z in zips]}')
     for n in outs:
-        v = unparse(n.value)
-        if v not in ('predecessors', '[predecessors]', 'self.output_tasks', 'list(predecessors)'):
+        # anything that keeps the caller's order is fine (the list itself, a copy, a one-element list, a conditional choice
+        # between those); re-ordering or filtering is not
+        reorders = any(isinstance(x, ast.Call) and (dotted(x.func) or '').split('.')[-1] in ('sorted', 'reversed', 'set', 'frozenset',
+                                                                                             'filter', 'shuffle') for x in ast.walk(n.value)) \
+            or any(isinstance(x, (ast.ListComp, ast.GeneratorExp, ast.SetComp)) and any(g_.ifs for g_ in x.generators)
+                   for x in ast.walk(n.value)) \
+            or any(isinstance(x, ast.Subscript) and isinstance(x.slice, ast.Slice) and x.slice.step is not None
+                   for x in ast.walk(n.value))
+        if reorders:
             chk.violation(W4, rel, iw.qualname, unparse(n),
                           'the explicit predecessor list is re-ordered / filtered before the positional pairing with the '
                           'inputs of the inserted workflow', line=n.lineno,
@@ -492,6 +501,8 @@ def run_w8(chk, repo):
     wm = repo.module('pharmpy.workflows.workflow')
     wf = wm.classes.get('Workflow')
     f = wf.methods.get('as_dask_dict') if wf else None
+    if f is not None:
+        f = repo.follow_delegation(f)
     cm = repo.module('pharmpy.workflows.dispatchers.local_dask.call')
     cw = cm.functions.get('call_workflow')
     if f is None or cw is None:
